@@ -1,0 +1,32 @@
+//go:build verif
+
+package logging
+
+import (
+	"github.com/sirupsen/logrus"
+)
+
+type verifSink func(line string)
+
+func (f verifSink) Write(p []byte) (int, error) {
+	f(string(p))
+	return len(p), nil
+}
+
+// VerifSetSink hands every formatted log line (level INFO and above) to f, synchronously and in the
+// goroutine that logs it; nil restores the unconfigured logger. A correspondence run uses the lines the
+// event loop and the refresh goroutine write as points at which it can hold either of them.
+// f must be safe for concurrent use: the logger's own lock is switched off so that holding one
+// goroutine inside f does not block the others.
+func VerifSetSink(f func(line string)) {
+	if f == nil {
+		logObj = nil
+		return
+	}
+	l := logrus.New()
+	l.SetNoLock()
+	l.SetLevel(logrus.InfoLevel)
+	l.SetFormatter(&logrus.TextFormatter{DisableColors: true, DisableTimestamp: true})
+	l.SetOutput(verifSink(f))
+	logObj = &logger{iWriter: l, fWriter: l}
+}
